@@ -393,6 +393,8 @@ pub struct C07Case {
     pub calc: Calc,
     pub recursive: bool,
     pub vsel: u8,
+    /// every non-leaf function calls its callee twice (a second call after the first returned)
+    pub twice: bool,
 }
 
 pub fn c07_program(c: &C07Case) -> Vec<I> {
@@ -485,6 +487,11 @@ pub fn c07_program(c: &C07Case) -> Vec<I> {
             f.push(isa::call_local(0)); // patched
             // after return: r0..r5 are as the callee left them; fold callee-saved and own stack
             f.push(isa::add64r(0, 3));
+            if c.twice {
+                f.push(isa::mov64r(5, 10));
+                f.push(isa::call_local(0)); // patched
+                f.push(isa::add64r(0, 3));
+            }
         }
         if c.body & 1 != 0 {
             f.push(isa::add64r(0, 6));
@@ -536,9 +543,9 @@ pub fn c07_program(c: &C07Case) -> Vec<I> {
 fn c07_check(s: &mut Sink, eng: Eng, c: &C07Case) {
     let prog = c07_program(c);
     let bytes = isa::enc(&prog);
-    let rp = json!({"kind":"local-call","eng":eng.name(),"depth":c.depth,"reversed":c.reversed,"body":c.body,"recursive":c.recursive,"vsel":c.vsel,
+    let rp = json!({"kind":"local-call","eng":eng.name(),"depth":c.depth,"reversed":c.reversed,"body":c.body,"recursive":c.recursive,"vsel":c.vsel,"twice":c.twice,
                     "calc": match c.calc { Calc::None => json!("none"), Calc::Const(v) => json!(v), Calc::PcDep => json!("pc") }});
-    let class = format!("{}{}{}", if c.recursive { "recursion" } else { "chain" }, if c.reversed { "-backward" } else { "" }, match c.calc { Calc::None => "", Calc::PcDep => "+calc(pc)", Calc::Const(_) => "+calc" });
+    let class = format!("{}{}{}", if c.recursive { "recursion" } else if c.twice { "tree" } else { "chain" }, if c.reversed { "-backward" } else { "" }, match c.calc { Calc::None => "", Calc::PcDep => "+calc(pc)", Calc::Const(_) => "+calc" });
     s.count("evaluations", 1);
     s.count("states", 1);
     let mut m = isaeng::model_for(&prog, VmKind::NoData, &[], &[], true);
@@ -645,14 +652,17 @@ fn c07_cases(thorough: bool) -> Vec<C07Case> {
                 for calc in &calcs {
                     let vs: Vec<u8> = if thorough { (0..31).collect() } else { vec![1, 22, 28] };
                     for vsel in vs {
-                        v.push(C07Case { depth, reversed, body, calc: *calc, recursive: false, vsel });
+                        v.push(C07Case { depth, reversed, body, calc: *calc, recursive: false, vsel, twice: false });
+                        if depth >= 1 && depth <= 4 && (thorough || vsel == 1) {
+                            v.push(C07Case { depth, reversed, body, calc: *calc, recursive: false, vsel, twice: true });
+                        }
                     }
                 }
             }
         }
         for body in 0..4u8 {
             for calc in &calcs {
-                v.push(C07Case { depth, reversed: true, body, calc: *calc, recursive: true, vsel: 5 });
+                v.push(C07Case { depth, reversed: true, body, calc: *calc, recursive: true, vsel: 5, twice: false });
             }
         }
     }
@@ -663,7 +673,7 @@ pub fn run_c07(s: &mut Sink) {
     let thorough = s.tier == Tier::Thorough;
     let cases = c07_cases(thorough);
     s.meta.insert("alphabet".into(), json!({
-        "call_graphs": "chains main -> f1 -> ... -> fd for d = 0..9 laid out forward or backward (negative displacements); self-recursion bounded by a counter in r1 for depth 0..9",
+        "call_graphs": "chains main -> f1 -> ... -> fd for d = 0..9 laid out forward or backward (negative displacements); binary call trees (every function calls its callee twice) of depth 1..4; self-recursion bounded by a counter in r1 for depth 0..9",
         "bodies": "16 combinations of {set r6-r9 in every function, stack tag at [r10-8] written and read back after the call, lowest slot of the frame touched, helper call inside every function}",
         "calculators": if thorough {"none, const 0, 8, 64, 256, 512, 65535, pc-dependent 16+8*pc"} else {"none, const 0, 64, 512, pc-dependent 16+8*pc"},
         "register_contents": if thorough {"all 31 V64 values"} else {"3 V64 values"},
@@ -685,7 +695,7 @@ pub fn run_c07(s: &mut Sink) {
             }
             for c in chunk {
                 let cc = *c;
-                let rp = json!({"kind":"local-call","eng":eng.name(),"depth":c.depth,"reversed":c.reversed,"body":c.body,"recursive":c.recursive,"vsel":c.vsel,
+                let rp = json!({"kind":"local-call","eng":eng.name(),"depth":c.depth,"reversed":c.reversed,"body":c.body,"recursive":c.recursive,"vsel":c.vsel,"twice":c.twice,
                     "calc": match c.calc { Calc::None => json!("none"), Calc::Const(v) => json!(v), Calc::PcDep => json!("pc") }});
                 s.mark(idx, &format!("{}/local-call", eng.name()), &rp);
                 run_group(s, eng, "local-call", &rp, move |cs| c07_check(cs, eng, &cc));
@@ -702,7 +712,7 @@ pub fn replay_c07(v: &Value) -> Vec<String> {
         Value::String(_) => Calc::PcDep,
         x => Calc::Const(x.as_u64().unwrap() as u16),
     };
-    let c = C07Case { depth: v["depth"].as_u64().unwrap() as u8, reversed: v["reversed"].as_bool().unwrap(), body: v["body"].as_u64().unwrap() as u8, calc, recursive: v["recursive"].as_bool().unwrap(), vsel: v["vsel"].as_u64().unwrap() as u8 };
+    let c = C07Case { depth: v["depth"].as_u64().unwrap() as u8, reversed: v["reversed"].as_bool().unwrap(), body: v["body"].as_u64().unwrap() as u8, calc, recursive: v["recursive"].as_bool().unwrap(), vsel: v["vsel"].as_u64().unwrap() as u8, twice: v["twice"].as_bool().unwrap_or(false) };
     let mut s = Sink::new("replay", Tier::Quick, 0, 1, None, None, 3600);
     let rp = v.clone();
     run_group(&mut s, eng, "local-call", &rp, move |cs| c07_check(cs, eng, &c));
